@@ -220,6 +220,9 @@ struct Walker<'a, S: Scenario> {
     s: &'a S,
     sh: &'a Shared<'a, S::A>,
     trail: Vec<bool>,
+    /// the world being driven; replaced by a fresh one (with the current ledger snapshot
+    /// installed) when the host has accumulated too many objects
+    live: Option<std::rc::Rc<S::Ctx>>,
     known: &'a Known,
     local: Local,
     cfg: usize,
@@ -278,11 +281,12 @@ impl<'a, S: Scenario> Walker<'a, S> {
         cont
     }
 
-    fn dfs(&mut self, ctx: &S::Ctx, m: &S::M, depth: usize, path: &mut Vec<S::A>) {
+    fn dfs(&mut self, m: &S::M, depth: usize, path: &mut Vec<S::A>) {
         if self.sh.stop.load(Ordering::Relaxed) {
             return;
         }
-        let w = self.s.world(ctx);
+        let ctx = self.live.clone().unwrap();
+        let w = self.s.world(&ctx);
         let key = key_of(self.cfg, w.state_hash(), m);
         let remaining = (self.bound - depth) as u8;
         if !visit(self.sh, key, remaining) {
@@ -290,7 +294,7 @@ impl<'a, S: Scenario> Walker<'a, S> {
             self.local.traces += 1;
             return;
         }
-        if !self.run_probe(ctx, m, path) {
+        if !self.run_probe(&ctx, m, path) {
             return;
         }
         if remaining == 0 {
@@ -307,24 +311,40 @@ impl<'a, S: Scenario> Walker<'a, S> {
             }
             return;
         }
-        let acts = self.s.actions(ctx, m);
+        let acts = self.s.actions(&ctx, m);
         self.sh.distinct.first_expansion(key, acts.len());
         let snap = w.snap();
+        drop(ctx);
         for a in acts {
             if self.sh.stop.load(Ordering::Relaxed) {
                 return;
             }
+            // a descendant may have replaced the world
+            let ctx = self.live.clone().unwrap();
             let mut m2 = m.clone();
             path.push(a.clone());
-            let cont = self.do_step(ctx, &mut m2, &a, path, true);
+            let cont = self.do_step(&ctx, &mut m2, &a, path, true);
+            drop(ctx);
             if cont {
-                self.dfs(ctx, &m2, depth + 1, path);
+                self.dfs(&m2, depth + 1, path);
             } else {
                 self.local.traces += 1;
             }
             path.pop();
             self.trail.pop();
-            w.restore(&snap);
+            let ctx = self.live.clone().unwrap();
+            let w = self.s.world(&ctx);
+            if w.calls.get() > world_call_budget() {
+                // host objects are never freed inside one Env: move on to a fresh host and
+                // install this node's ledger snapshot there (ledger entries are host-independent)
+                drop(ctx);
+                self.live = None;
+                let (fresh, _) = self.s.build(self.cfg);
+                self.s.world(&fresh).restore(&snap);
+                self.live = Some(std::rc::Rc::new(fresh));
+            } else {
+                w.restore(&snap);
+            }
         }
     }
 
@@ -396,12 +416,12 @@ fn run_item<S: Scenario>(
     known: &Known,
     item: &Item,
     bound: usize,
-    cache: &mut HashMap<usize, (S::Ctx, S::M, crate::world::Snap)>,
+    cache: &mut HashMap<usize, (std::rc::Rc<S::Ctx>, S::M, crate::world::Snap)>,
 ) {
     // host objects are never freed within one Env: rebuild the world after many calls
     let stale = cache
         .get(&item.cfg)
-        .map(|(ctx, _, _)| s.world(ctx).calls.get() > 100_000)
+        .map(|(ctx, _, _)| s.world(ctx).calls.get() > world_call_budget())
         .unwrap_or(false);
     if stale {
         cache.remove(&item.cfg);
@@ -409,9 +429,12 @@ fn run_item<S: Scenario>(
     if !cache.contains_key(&item.cfg) {
         let (ctx, m) = s.build(item.cfg);
         let snap = s.world(&ctx).snap();
-        cache.insert(item.cfg, (ctx, m, snap));
+        cache.insert(item.cfg, (std::rc::Rc::new(ctx), m, snap));
     }
-    let (ctx, m0, root) = cache.get(&item.cfg).unwrap();
+    let (ctx_rc, m0, root) = cache.get(&item.cfg).unwrap().clone();
+    let ctx: &S::Ctx = &ctx_rc;
+    let m0 = &m0;
+    let root = &root;
     let w = s.world(ctx);
     w.restore(root);
     let mut wk = Walker {
@@ -422,6 +445,7 @@ fn run_item<S: Scenario>(
         cfg: item.cfg,
         bound,
         trail: vec![],
+        live: Some(ctx_rc.clone()),
     };
     let mut m = m0.clone();
     let mut path: Vec<S::A> = vec![];
@@ -456,10 +480,13 @@ fn run_item<S: Scenario>(
         }
     }
     if ok {
-        wk.dfs(ctx, &m, item.prefix.len(), &mut path);
+        wk.dfs(&m, item.prefix.len(), &mut path);
     }
     wk.flush();
-    w.restore(root);
+    // the walker may have moved to a fresh host: keep that one
+    let live = wk.live.take().unwrap();
+    s.world(&live).restore(root);
+    cache.insert(item.cfg, (live, m0.clone(), root.clone()));
 }
 
 fn make_items<S: Scenario>(s: &S, bound: usize, known: &Known) -> Vec<Item> {
@@ -492,6 +519,7 @@ fn make_items<S: Scenario>(s: &S, bound: usize, known: &Known) -> Vec<Item> {
                 cfg,
                 bound,
                 trail: vec![],
+                live: None,
             };
             let cont = wk.do_step(&ctx, &mut m, a, &vec![a.clone()], false);
             let n = if cont { s.actions(&ctx, &m).len() } else { 0 };
@@ -853,6 +881,17 @@ pub fn run<S: Scenario>(s: &S, opts: &Opts) -> Outcome {
         t0.elapsed().as_secs_f64()
     );
     Outcome { exit_code }
+}
+
+/// calls after which a worker moves to a fresh host (AXMC_WORLD_CALLS overrides, for tests)
+pub fn world_call_budget() -> u64 {
+    static V: std::sync::OnceLock<u64> = std::sync::OnceLock::new();
+    *V.get_or_init(|| {
+        std::env::var("AXMC_WORLD_CALLS")
+            .ok()
+            .and_then(|s| s.parse().ok())
+            .unwrap_or(30_000)
+    })
 }
 
 /// resident set size of this process in GiB (memory cap inside the engine)
